@@ -24,6 +24,11 @@ def program_info(training_file, encoding='utf-8', coverage=0.6, ngram=4, alphabe
 
 def write_training(path, lines, encoding='utf-8', newline='\n'):
     """lines: list of str (encoded with `encoding`) or bytes (written verbatim)."""
+    if all(isinstance(l, str) for l in lines):
+        # encode the text as a whole (a 16-bit encoding must not get a BOM per line / an 8-bit line feed)
+        with open(path, 'wb') as f:
+            f.write(''.join(l + newline for l in lines).encode(encoding, errors='surrogateescape'))
+        return
     with open(path, 'wb') as f:
         for l in lines:
             if isinstance(l, bytes):
